@@ -23,21 +23,38 @@ RULE = ("cases: (1) exhaustive: one-protein files for every sequence over {K,A,C
         "shuffle and reverse; thorough adds every sequence over {K,R,A,C} up to length 6 with [KR] and every length-9 "
         "sequence over {K,A,C}; every permutation of range(k), k<=4 (quick) / 6 (thorough), as the scripted value of the "
         "permutation oracle (two peptides share the cached permutation) and the retry-loop boundaries (identity returned "
-        "0,1,2,99,100,101,150 times); (2) random structured FASTA inputs: 1-3 files, 1-6 records, descriptions, multi-line "
-        "records of several widths, CRLF / CR, blank lines, empty names, sequence lengths 0-6, 69/70/71, 139/140/141, 210 and "
-        "random to 320, with and without cleavage sites, residue-class and look-around enzymes (str or compiled), "
-        "shuffle/reverse, concatenate on/off, six prefixes, numpy RNG (seeded) or scripted permutations; (3) malformed "
-        "stream: random texts over a token alphabet ('>', newlines of all kinds, spaces, tabs, '-', long runs, empty "
-        "files, no leading '>'), through make_decoys and through the parser alone; (3b) sequences with blanks (outside the "
-        "round-trip guard; agreement required, property outcome reported in the evidence); (4) textwrap vs the 70-column "
-        "chunking of the model. distinct = distinct case content; non-trivial = some peptide has an interior of >= 2 "
-        "residues (the shuffle acts) or the input is malformed")
+        "0,1,2,99,100,101,150 times); (1b) call matrix: every container type of the `fasta` argument (str, Path, list, tuple, "
+        "list/tuple of Path, numpy array of str / object, pandas Series with non-default row labels, one-shot iterator) x "
+        "state of out_file (absent, holds a longer FASTA text, holds a shorter one, IS one of the input files) x call style "
+        "(keywords, all keywords incl. fasta=/out_file=, all positional, arguments with their documented default left out) "
+        "with bool / int / numpy.bool_ flags, str / Path out_file, relative paths (cwd changed), file names that are not in "
+        "sorted order, in sub-directories, with blanks, the same file given twice; the four documented defaults left out one "
+        "combination at a time; every other exhaustive case and every random case draws such a call shape as well; none of "
+        "this is an input of the model, which must nevertheless predict the written text; "
+        "(2) random structured FASTA inputs: 1-3 files, 1-6 records, descriptions (blank or tab separated), multi-line "
+        "records of several widths, CRLF / CR, blank lines, empty names, names that occur twice (with the same or another "
+        "sequence), names that already start with the decoy prefix, names equal to the decoy name of an earlier target, names "
+        "of 66-120 characters, names with tab / '>' / non-ASCII letters, sequence lengths 0-6, 69/70/71, 139/140/141, 210, "
+        "random to 320 (thorough: 700/1400/3500), upper / lower / mixed case, ambiguity codes XBZUOJ, '-' gaps and '*' inside, "
+        "with and without cleavage sites, residue-class and regex enzymes (look-around, alternation, groups, multi-character "
+        "matches, anchors, inline (?i), str or compiled, compiled with re.IGNORECASE), shuffle/reverse, concatenate on/off, six "
+        "prefixes, numpy RNG (32-bit seeds, fresh or already used) or scripted permutations; (3) malformed stream: random texts "
+        "over a token alphabet ('>', newlines of all kinds, spaces, tabs, '-', BOM, long runs, empty files, no leading '>', no "
+        "file at all), through make_decoys (half of them with a random call shape) and through the parser alone; (3b) "
+        "sequences with blanks (outside the round-trip guard; agreement required, property outcome reported in the evidence); "
+        "(4) textwrap vs the 70-column chunking of the model. Every case runs in a directory of its own which is removed "
+        "afterwards. distinct = distinct case content (call shape included); non-trivial = some peptide has an interior of >= 2 "
+        "residues (the shuffle acts), or the input is malformed and at least one file has more than its first character")
 ASSUMPTIONS = [
     "files are UTF-8; open() newline translation is modelled (fa_universal_nl), the codec is not",
     "str.splitlines() boundaries modelled: \\n \\v \\f \\r \\r\\n FS GS RS NEL LS PS",
     "textwrap.wrap, np.random.permutation and (for non-class enzymes) re.finditer are oracles: their recorded values are "
     "model inputs; contracts (concatenation = sequence, chunks of 1..70 / exactly the 70-column chunking for hyphen-free "
     "sequences; permutation of range(k); sites start at 0, end at len, never decrease) are checked on every recorded value",
+    "make_decoys(fasta, out_file, decoy_prefix='decoy_', enzyme='[KR]', reverse=False, concatenate=True): parameter order and "
+    "default values as documented in its docstring are part of what is checked (calls that leave arguments out or pass them "
+    "positionally); the files are read completely before out_file is opened for writing, so out_file may be an input",
+    "the order of the target entries is the order of the files as given (repeats included), then the order inside each file",
     "the round-trip theorem assumes names without space / line boundary and sequences without whitespace, line boundary, '>'; "
     "names produced by the parser always satisfy this, sequences need not (malformed stream shows the behaviour)",
 ]
@@ -52,6 +69,7 @@ _CACHE = {}
 _CONTRACT_FAIL = []      # (what, case)
 _COUNTS = {"perm_values": 0, "wrap_values": 0, "site_lists": 0}
 _TMP = None
+_NCASE = 0
 
 
 def _tmpdir():
@@ -77,8 +95,18 @@ def _cls_of(pattern):
     return None
 
 
-def _sites(pattern, seq):
-    return [0] + [m.end() for m in re.finditer(pattern, seq)] + [len(seq)]
+def _rx(c):
+    """the enzyme of a case as a compiled pattern (flags: 'i' = re.IGNORECASE)"""
+    return re.compile(c["enzyme"], re.I if "i" in (c.get("reflags") or "") else 0)
+
+
+def _sites(c, seq):
+    return [0] + [m.end() for m in _rx(c).finditer(seq)] + [len(seq)]
+
+
+def _case_cls(c):
+    """residue class of the enzyme of a case (None: the regex oracle is needed)"""
+    return None if (c.get("reflags") or "") else _cls_of(c["enzyme"])
 
 
 # ----------------------------------------------------------------------------- structured inputs
@@ -106,10 +134,165 @@ def struct_entries(struct):
     return [[r["name"], r["seq"]] for f in struct for r in f]
 
 
-def _mk(struct, prefix, enzyme, reverse, concatenate, perm, tags, compiled=False, single=False):
-    return {"fn": "make_decoys", "files": [render_file(f) for f in struct], "struct": struct, "prefix": prefix,
-            "enzyme": enzyme, "compiled": compiled, "reverse": reverse, "concatenate": concatenate,
-            "perm": perm, "single": single, "tags": tags}
+def _mk(struct, prefix, enzyme, reverse, concatenate, perm, tags, compiled=False, single=False, how=None, reflags=""):
+    c = {"fn": "make_decoys", "files": [render_file(f) for f in struct], "struct": struct, "prefix": prefix,
+         "enzyme": enzyme, "compiled": compiled or bool(reflags), "reverse": reverse, "concatenate": concatenate,
+         "perm": perm, "single": single, "tags": list(tags)}
+    if reflags:
+        c["reflags"] = reflags
+    if how is not None:
+        c["how"] = how
+        c["tags"] += _how_tags(how)
+    return c
+
+
+# ----------------------------------------------------------------------------- how the real function is called
+# None of this is visible to the model (it sees file contents, prefix, enzyme, the two flags): the way the arguments
+# are spelled, where the files live and what is already on disk must not change what is written.
+ARG_ONE = ["str", "path", "list", "tuple", "list-path", "ndarray", "series", "iter"]
+ARG_MANY = ["list", "tuple", "list-path", "tuple-path", "ndarray", "ndarray-object", "series", "iter"]
+OUT_KINDS = ["str", "path"]
+PRE_KINDS = ["absent", "absent", "longer", "shorter", "in-place"]
+CALL_STYLES = ["kw", "allkw", "pos", "omit"]
+FLAG_KINDS = ["bool", "bool", "int", "npbool"]
+FILE_NAMES = ["z.fasta", "a.fa", "sub dir/m.fasta", "Zeta.FASTA", "b/c/db.txt", "0.faa", "x y.fasta", "_t.fasta",
+              "nested/z.fasta", "M.fasta"]
+DEFAULTS = {"decoy_prefix": "decoy_", "enzyme": "[KR]", "reverse": False, "concatenate": True}
+
+
+def _rand_how(rng, nfiles):
+    names = rng.sample(FILE_NAMES + (["pr\xe9.fasta"] if UTF8 else []), nfiles)     # never in sorted order on purpose
+    return {"paths": names, "arg": rng.choice(ARG_ONE if nfiles == 1 else ARG_MANY), "out": rng.choice(OUT_KINDS),
+            "out_name": rng.choice(["out.fasta", "res/o.fa", "a.out", "zz out.fasta"]),
+            "pre": rng.choice(PRE_KINDS), "inplace_idx": rng.randrange(max(1, nfiles)),
+            "call": rng.choice(CALL_STYLES), "flags": rng.choice(FLAG_KINDS), "rel": rng.random() < 0.15}
+
+
+def _how_tags(how):
+    t = ["arg=" + str(how.get("arg")), "out=" + str(how.get("out")), "pre=" + str(how.get("pre")),
+         "call=" + str(how.get("call")), "flags=" + str(how.get("flags"))]
+    if how.get("rel"):
+        t.append("relative-paths")
+    ps = how.get("paths") or []
+    if ps != sorted(ps):
+        t.append("file-names-unsorted")
+    if len(set(ps)) < len(ps):
+        t.append("same-file-twice")
+    return t
+
+
+def _leftover(n):
+    """a syntactically valid FASTA text of at least n characters (what an earlier run may have left in out_file)"""
+    out, i = [], 0
+    size = 0
+    while size < n:
+        rec = f">left|{i} old\n" + ("W" * 60 + "\n") * 3
+        out.append(rec)
+        size += len(rec)
+        i += 1
+    return "".join(out)
+
+
+def _materialise(c, d):
+    """write the input files of a case below d; -> (paths, out path, names relative to d)"""
+    how = c.get("how") or {}
+    n = len(c["files"])
+    names = how.get("paths")
+    if not names or len(names) != n:
+        names = [f"in{i}.fasta" for i in range(n)]
+    names = list(names)
+    seen = {}
+    for i, (name, txt) in enumerate(zip(names, c["files"])):
+        if seen.setdefault(name, txt) != txt:       # (a shrunk case:) one path cannot hold two texts
+            names[i] = f"{i}_{name}"
+            seen[names[i]] = txt
+    paths = []
+    for name, txt in zip(names, c["files"]):
+        p = os.path.join(d, name)
+        os.makedirs(os.path.dirname(p), exist_ok=True)
+        with open(p, "w", newline="", encoding="utf-8") as f:
+            f.write(txt)
+        paths.append(p)
+    pre = how.get("pre", "absent")
+    if pre == "in-place" and n > 0:
+        k = how.get("inplace_idx", 0) % n
+        out, out_name = paths[k], names[k]
+    else:
+        out_name = how.get("out_name", "out.fasta")
+        out = os.path.join(d, out_name)
+        os.makedirs(os.path.dirname(out), exist_ok=True)
+        if pre in ("longer", "shorter"):
+            with open(out, "w", newline="", encoding="utf-8") as f:
+                f.write(_leftover(3 * sum(len(t) for t in c["files"]) + 1000) if pre == "longer" else ">s\nAK")
+    return paths, out, names, out_name
+
+
+def _build_arg(c, paths):
+    import pathlib
+    import numpy as np
+    how = c.get("how") or {}
+    kind = how.get("arg")
+    if kind is None:
+        return paths[0] if (c.get("single") and len(paths) == 1) else paths
+    if kind in ("str", "path") and len(paths) != 1:
+        kind = "list"
+    if kind == "str":
+        return paths[0]
+    if kind == "path":
+        return pathlib.Path(paths[0])
+    if kind == "tuple":
+        return tuple(paths)
+    if kind == "list-path":
+        return [pathlib.Path(p) for p in paths]
+    if kind == "tuple-path":
+        return tuple(pathlib.Path(p) for p in paths)
+    if kind == "ndarray":
+        return np.array(paths)
+    if kind == "ndarray-object":
+        return np.array(paths, dtype=object)
+    if kind == "series":
+        import pandas as pd
+        return pd.Series(paths, index=[f"f{len(paths) - i}" for i in range(len(paths))])     # non-default row labels
+    if kind == "iter":
+        return iter(list(paths))
+    return list(paths)
+
+
+def _flag(kind, v):
+    import numpy as np
+    if kind == "int":
+        return int(bool(v))
+    if kind == "npbool":
+        return np.bool_(bool(v))
+    return bool(v)
+
+
+def _call(c, arg, out):
+    """the one call of the real API function"""
+    import pathlib
+    import mokapot
+    how = c.get("how") or {}
+    enz = _rx(c) if c.get("compiled") else c["enzyme"]
+    fk = how.get("flags", "bool")
+    rev, conc = _flag(fk, c["reverse"]), _flag(fk, c["concatenate"])
+    if how.get("out") == "path":
+        out = pathlib.Path(out)
+    style = how.get("call", "kw")
+    if style == "pos":
+        return mokapot.make_decoys(arg, out, c["prefix"], enz, rev, conc)
+    kw = {"decoy_prefix": c["prefix"], "enzyme": enz, "reverse": rev, "concatenate": conc}
+    if style == "omit":         # arguments that have their documented default value are left out
+        if c["prefix"] == DEFAULTS["decoy_prefix"]:
+            del kw["decoy_prefix"]
+        if not c.get("compiled") and c["enzyme"] == DEFAULTS["enzyme"]:
+            del kw["enzyme"]
+        if not c["reverse"]:
+            del kw["reverse"]
+        if c["concatenate"]:
+            del kw["concatenate"]
+    if style == "allkw":
+        return mokapot.make_decoys(fasta=arg, out_file=out, **kw)
+    return mokapot.make_decoys(arg, out, **kw)
 
 
 # ----------------------------------------------------------------------------- running the real code
@@ -153,25 +336,32 @@ def _run(c):
         wraps.setdefault(text, list(r))
         return r
 
-    d = _tmpdir()
-    paths = []
-    for i, txt in enumerate(c["files"]):
-        p = os.path.join(d, f"in{i}.fasta")
-        with open(p, "w", newline="", encoding="utf-8") as f:
-            f.write(txt)
-        paths.append(p)
-    out = os.path.join(d, "out.fasta")
-    if os.path.exists(out):
-        os.unlink(out)
-    arg = paths[0] if (c.get("single") and len(paths) == 1) else paths
-    enz = re.compile(c["enzyme"]) if c.get("compiled") else c["enzyme"]
+    global _NCASE
+    _NCASE += 1
+    d = os.path.join(_tmpdir(), f"case{_NCASE}")
+    os.makedirs(d)
+    how = c.get("how") or {}
+    paths, out, names, out_name = _materialise(c, d)
 
     def parse(path):
         return [list(F._parse_protein(p)) for p in F._parse_fasta_files(path)]
 
+    # the targets as the real parser sees them, read BEFORE the call (out_file may be one of the inputs)
+    logging.disable(logging.CRITICAL)
+    try:
+        tp = call_impl(parse, list(paths))
+    finally:
+        logging.disable(logging.NOTSET)
+
+    cwd = os.getcwd()
+    if how.get("rel"):
+        os.chdir(d)
+        arg, out_arg = _build_arg(c, names), out_name
+    else:
+        arg, out_arg = _build_arg(c, paths), out
+
     def go():
-        r = mokapot.make_decoys(arg, out, decoy_prefix=c["prefix"], enzyme=enz, reverse=c["reverse"],
-                                concatenate=c["concatenate"])
+        r = _call(c, arg, out_arg)
         with open(r, "r", newline="", encoding="utf-8") as f:
             txt = f.read()
         return [txt, list(call_impl(parse, r))]
@@ -183,12 +373,16 @@ def _run(c):
     try:
         if pm["mode"] == "numpy":
             np.random.seed(pm.get("seed", 0))
+            for _ in range(pm.get("burn", 0)):      # a generator that has been used before
+                np.random.random()
         res = call_impl(go)
     finally:
         np.random.permutation = real_perm
         textwrap.TextWrapper.wrap = real_wrap
         logging.disable(logging.NOTSET)
         np.random.set_state(st)
+        os.chdir(cwd)
+        shutil.rmtree(d, ignore_errors=True)
 
     # wrap table: recorded values first; textwrap on every sequence that can be written otherwise
     # (keeps the model runnable if a refactoring wraps by other means; such values are then not "recorded")
@@ -196,11 +390,6 @@ def _run(c):
     extra_seqs = []
     if res[0] == "ok" and res[1][1][0] == "ok":
         extra_seqs += [e[1] for e in res[1][1][1]]
-    logging.disable(logging.CRITICAL)
-    try:
-        tp = call_impl(parse, arg)
-    finally:
-        logging.disable(logging.NOTSET)
     if tp[0] == "ok":
         extra_seqs += [e[1] for e in tp[1]]
     for s in extra_seqs:
@@ -260,13 +449,13 @@ def encode(c):
     if fn == "wrap70":
         return "c18.wrap70 " + lib.s(c["seq"])
     r = _run(c)
-    cls = _cls_of(c["enzyme"])
+    cls = _case_cls(c)
     if cls is not None:
         enz = "0 " + lib.s(cls)
     else:
         # regex oracle: sites of every target sequence (known for structured inputs only)
         ents = struct_entries(c["struct"])
-        sl = [_sites(c["enzyme"], e[1]) for e in ents]
+        sl = [_sites(c, e[1]) for e in ents]
         for e, ss in zip(ents, sl):
             _COUNTS["site_lists"] += 1
             if ss[0] != 0 or ss[-1] != len(e[1]) or any(a > b for a, b in zip(ss, ss[1:])):
@@ -306,17 +495,13 @@ def same(c, m, i):
 
 
 def nontrivial(c):
-    if "malformed" in c.get("tags", []):
-        return True
+    if "malformed" in c.get("tags", []) or c.get("struct") is None and c["fn"] in ("make_decoys", "parse"):
+        return any(len(t) > 1 for t in c["files"])       # something is left after the leading character is dropped
     if c["fn"] == "wrap70":
         return len(c["seq"]) > 70
-    if c["fn"] == "parse":
-        return True
     st = c.get("struct")
-    if st is None:
-        return True
     for n, s in struct_entries(st):
-        ss = _sites(c["enzyme"], s)
+        ss = _sites(c, s)
         if any(b - a >= 4 for a, b in zip(ss, ss[1:])):
             return True
     return False
@@ -341,8 +526,7 @@ def check_property(c, res):
         decoys = got
     if len(decoys) != n:
         return f"{len(decoys)} decoys for {n} targets"
-    pat = c["enzyme"]
-    cls = _cls_of(pat)
+    cls = _case_cls(c)
     for (tn, ts), (dn, ds) in zip(targets, decoys):
         if dn != c["prefix"] + tn:
             return f"decoy name {dn!r} is not prefix + {tn!r}"
@@ -350,7 +534,7 @@ def check_property(c, res):
             return f"decoy of {ts!r} has length {len(ds)}"
         if sorted(ds) != sorted(ts):
             return f"decoy {ds!r} has another composition than {ts!r}"
-        ss = _sites(pat, ts)
+        ss = _sites(c, ts)
         for a, b in zip(ss, ss[1:]):
             if a < b and (ds[a] != ts[a] or ds[b - 1] != ts[b - 1]):
                 return f"terminus of peptide [{a},{b}) moved: {ts!r} -> {ds!r}"
@@ -358,7 +542,7 @@ def check_property(c, res):
                 return f"peptide [{a},{b}) changed composition: {ts!r} -> {ds!r}"
             if c["reverse"] and b - a >= 2 and ds[a + 1:b - 1] != ts[a + 1:b - 1][::-1]:
                 return f"interior of peptide [{a},{b}) is not reversed: {ts!r} -> {ds!r}"
-        if cls is not None and _sites(pat, ds) != ss:
+        if cls is not None and _sites(c, ds) != ss:
             return f"cleavage sites differ: {ts!r} -> {ds!r}"
     # layout: header lines and sequence lines of at most 70 columns, full lines exactly 70
     for rec in ("\n" + txt).split("\n>")[1:]:
@@ -395,12 +579,27 @@ def shrink(c):
         for k in range(len(s)):
             yield dict(c, seq=s[:k] + s[k + 1:])
         return
+    how = c.get("how")
+    if how:
+        # the plain call first: whatever survives in the replay is needed for the failure
+        plain = {"arg": "list", "out": "str", "pre": "absent", "call": "kw", "flags": "bool", "rel": False,
+                 "out_name": "out.fasta"}
+        for key, v in plain.items():
+            if how.get(key, v) != v:
+                yield dict(c, how=dict(how, **{key: v}))
+        if how.get("paths") and how["paths"] != sorted(how["paths"]):
+            yield dict(c, how=dict(how, paths=sorted(how["paths"])))
+
+    def drop_file(fi):
+        if not how or not how.get("paths") or len(how["paths"]) != len(c["files"]):
+            return {}
+        return {"how": dict(how, paths=how["paths"][:fi] + how["paths"][fi + 1:])}
     st = c.get("struct")
     if st is not None:
         for fi in range(len(st)):
             if len(st) > 1:
                 s2 = st[:fi] + st[fi + 1:]
-                yield dict(c, struct=s2, files=[render_file(f) for f in s2])
+                yield dict(c, struct=s2, files=[render_file(f) for f in s2], **drop_file(fi))
             for ri in range(len(st[fi])):
                 if len(st[fi]) > 1:
                     s2 = [list(f) for f in st]
@@ -424,7 +623,7 @@ def shrink(c):
     files = c["files"]
     for fi in range(len(files)):
         if len(files) > 1:
-            yield dict(c, files=files[:fi] + files[fi + 1:])
+            yield dict(c, files=files[:fi] + files[fi + 1:], **drop_file(fi))
     for fi, txt in enumerate(files):
         step = max(1, len(txt) // 40)
         for k in range(0, len(txt), step):
@@ -471,22 +670,72 @@ def extra_checks(ctx):
 # ----------------------------------------------------------------------------- generators
 AA = "ACDEFGHIKLMNPQRSTVWY"
 PREFIXES = ["decoy_", "rev_", "", "DECOY-", "XXX|", "d.e_c"]
-CLASS_ENZ = ["[KR]", "K", "[KRH]", "[DE]", "[FWYL]"]
-REGEX_ENZ = ["[KR](?!P)", "(?<=[KR])", "(?<=K)(?!P)", "[KR](?=[^P])", "(?<=[FWYL])(?!P)", "(?<![DE])[KR]", "K*"]
+CLASS_ENZ = ["[KR]", "K", "[KRH]", "[DE]", "[FWYL]", "[KRkr]", "[kr]", "[KRX]"]
+REGEX_ENZ = ["[KR](?!P)", "(?<=[KR])", "(?<=K)(?!P)", "[KR](?=[^P])", "(?<=[FWYL])(?!P)", "(?<![DE])[KR]", "K*",
+             "K|R", "([KR])", "[KR][^P]", "(?i)[kr]", "[KR](?!P)|[FWY]", "$", "^M", "KK?", "(?<=[KR])[^P]"]
+SEQ_STYLES = ["std", "std", "std", "std", "lower", "mixed", "ambig", "gap", "stop"]
 
 
-def _rand_seq(rng, n, density):
+def _rand_seq(rng, n, density, style="std"):
     cut = "KR"
-    return "".join(rng.choice(cut) if rng.random() < density else rng.choice("ACDEFGHILMNPQSTVWY") for _ in range(n))
+    other = "ACDEFGHILMNPQSTVWY" + ("XBZUOJ" if style == "ambig" else "")
+    s = [rng.choice(cut) if rng.random() < density else rng.choice(other) for _ in range(n)]
+    if style == "lower":
+        s = [x.lower() for x in s]
+    elif style == "mixed":
+        s = [x.lower() if rng.random() < 0.5 else x for x in s]
+    elif style in ("gap", "stop"):
+        ch = "-" if style == "gap" else "*"
+        s = [ch if rng.random() < 0.06 else x for x in s]
+    return "".join(s)
 
 
-def _rand_name(rng):
+def _rand_base_name(rng):
     body = "".join(rng.choice("abcXYZ0189|_.:-") for _ in range(rng.randint(1, 8)))
     return rng.choice(["sp|", "", "", "tr|", "P"]) + body
 
 
+def _rand_name(rng, prefix="", earlier=()):
+    """-> (name, tag or None).  Names that meet again (same name twice, with or without the same sequence), names that
+    already carry the decoy prefix, names equal to the decoy name of an earlier target, names longer than a line,
+    names with a tab / '>' / non-ASCII letter inside"""
+    u = rng.random()
+    base = _rand_base_name(rng)
+    if earlier and u < 0.10:
+        return rng.choice(earlier), "dup-name"
+    if prefix and u < 0.18:
+        return prefix + base, "name-has-prefix"
+    if earlier and u < 0.22:
+        return prefix + rng.choice(earlier), "name-is-a-decoy-name"
+    if u < 0.27:
+        return base + "|" + "".join(rng.choice("abcXYZ0189|_.:-") for _ in range(rng.randint(65, 110))), "long-name"
+    if u < 0.30:
+        return base + "\tOS=x", "tab-in-name"
+    if u < 0.33:
+        return base + ">" + rng.choice(["", "x"]), "gt-in-name"
+    if UTF8 and u < 0.36:
+        return base + rng.choice("\xe9\u03b2"), "non-ascii-name"
+    return base, None
+
+
+def _apply_omit(rng, how, prefix, enz, regex, rev, conc):
+    """a call that leaves arguments out must meet the documented defaults often enough"""
+    if how.get("call") != "omit":
+        return prefix, enz, regex, rev, conc
+    if rng.random() < 0.6:
+        prefix = DEFAULTS["decoy_prefix"]
+    if rng.random() < 0.6:
+        enz, regex = DEFAULTS["enzyme"], False
+    if rng.random() < 0.6:
+        rev = DEFAULTS["reverse"]
+    if rng.random() < 0.6:
+        conc = DEFAULTS["concatenate"]
+    return prefix, enz, regex, rev, conc
+
+
 def gen(ctx):
     cases = []
+    hrng = ctx.sub("how-exhaustive")
     # (1) exhaustive small scope -------------------------------------------------------------
     maxlen = 8 if ctx.thorough else 7
     k = 0
@@ -496,16 +745,22 @@ def gen(ctx):
             for rev in (False, True):
                 k += 1
                 st = [[{"name": "p", "desc": "", "seq": seq, "width": 60, "final": bool(k % 2)}]]
-                cases.append(_mk(st, "decoy_", "[K]" if k % 3 else "K", rev, bool(k % 5), {"mode": "numpy", "seed": k},
-                                 ["exhaustive", "reverse" if rev else "shuffle"], single=bool(k % 2)))
+                how = _rand_how(hrng, 1) if k % 2 else None       # every other case: the plain call of the old harness
+                enz = "[K]" if k % 3 else "K"
+                conc = bool(k % 5)
+                if how and how["call"] == "omit" and not conc:
+                    how["call"] = "kw"      # the small scope keeps its parameters; defaults are met in the random stream
+                cases.append(_mk(st, "decoy_", enz, rev, conc, {"mode": "numpy", "seed": k},
+                                 ["exhaustive", "reverse" if rev else "shuffle"], single=bool(k % 2), how=how))
     if ctx.thorough:
         # two-residue class, alphabet {K,R,A,C}, up to length 6; and length 9 over {K,A,C}, shuffle only
         for n in range(0, 7):
             for tup in itertools.product("KRAC", repeat=n):
                 k += 1
                 st = [[{"name": "p", "desc": "", "seq": "".join(tup), "width": 60, "final": bool(k % 2)}]]
+                how = _rand_how(hrng, 1) if k % 2 else None
                 cases.append(_mk(st, "decoy_", "[KR]", bool(k % 2), bool(k % 3), {"mode": "numpy", "seed": k},
-                                 ["exhaustive", "exhaustive-KRAC", "reverse" if k % 2 else "shuffle"]))
+                                 ["exhaustive", "exhaustive-KRAC", "reverse" if k % 2 else "shuffle"], how=how))
         for tup in itertools.product("KAC", repeat=9):
             k += 1
             st = [[{"name": "p", "desc": "", "seq": "".join(tup), "width": 60}]]
@@ -520,54 +775,112 @@ def gen(ctx):
             seq = "L" + letters[:kk] + "K" + "M" + letters[:kk][::-1] + "K" + "NSTVWK"
             st = [[{"name": "q1", "desc": "x y", "seq": seq, "width": 7}], [{"name": "q2", "seq": "W" + letters[1:kk + 1] + "R"}]]
             cases.append(_mk(st, "d_", "[KR]", False, True, {"mode": "script", "seed": 1, "perms": {str(kk): list(p)}},
-                             ["exhaustive-perm", f"k={kk}"]))
+                             ["exhaustive-perm", f"k={kk}"], how=_rand_how(hrng, 2)))
     # retry loop boundaries: identity returned `ident` times first
     for ident in (0, 1, 2, 99, 100, 101, 150):
         st = [[{"name": "r", "seq": "AXYZK" + "GHIK" + "CDEFGK"}]]
         cases.append(_mk(st, "decoy_", "K", False, True, {"mode": "script", "seed": 7, "ident": ident},
                          ["retry", f"ident={ident}"]))
+    # (1b) every way of calling, crossed with every state of out_file, on one two-file input with a repeated record,
+    # a target that already carries the prefix and file names that are not in sorted order
+    base_st = [[{"name": "sp|B", "desc": "second file name sorts first", "seq": "MACDEFGHIKLMNPQRSTVWYKAACDEKR", "width": 11},
+                {"name": "d_sp|A", "seq": "GHILMKNPQSTR"}],
+               [{"name": "sp|A", "seq": "WYVTSRQPNMLKIHGFEDCA" * 4, "width": 70},
+                {"name": "sp|B", "desc": "", "seq": "MACDEFGHIKLMNPQRSTVWYKAACDEKR", "width": 60, "final": False}]]
+    one_st = [base_st[0]]
+    j = 0
+    for arg in sorted(set(ARG_ONE + ARG_MANY)):
+        for pre in ("absent", "longer", "shorter", "in-place"):
+            for call in CALL_STYLES:
+                j += 1
+                many = arg in ARG_MANY and (arg not in ARG_ONE or j % 2)
+                st = base_st if many else one_st
+                how = {"paths": ["z/t.fasta", "a.fasta"][:len(st)], "arg": arg, "out": OUT_KINDS[j % 2],
+                       "out_name": "o.fasta", "pre": pre, "inplace_idx": j % len(st), "call": call,
+                       "flags": FLAG_KINDS[1 + j % 3], "rel": j % 7 == 0}
+                rev, conc = bool(j % 2), bool((j // 2) % 2)
+                prefix, enz = ("decoy_", "[KR]") if call == "omit" else ("d_", "[KR]")
+                cases.append(_mk(st, prefix, enz, rev, conc, {"mode": "numpy", "seed": j},
+                                 ["call-matrix", "reverse" if rev else "shuffle"], how=how))
+    # the documented defaults, one argument left out at a time
+    for j in range(16):
+        rev, conc, dpre, denz = bool(j & 1), bool(j & 2), bool(j & 4), bool(j & 8)
+        how = {"paths": ["t.fasta"], "arg": "str", "out": "str", "out_name": "o.fasta", "pre": "absent", "call": "omit",
+               "flags": "bool"}
+        cases.append(_mk(one_st, "decoy_" if dpre else "x_", "[KR]" if denz else "K", rev, conc, {"mode": "numpy", "seed": j},
+                         ["defaults"], how=how))
+    # the same list of files twice / no file at all
+    for arg in ("list", "tuple"):
+        cases.append({"fn": "make_decoys", "files": [], "prefix": "decoy_", "enzyme": "[KR]", "compiled": False,
+                      "reverse": False, "concatenate": True, "perm": {"mode": "script", "seed": 0}, "single": False,
+                      "how": {"arg": arg, "out": "str", "pre": "absent", "call": "kw", "flags": "bool"},
+                      "tags": ["malformed", "no-files"]})
     # (2) random structured -----------------------------------------------------------------------
     rng = ctx.sub("structured")
     special = [0, 0, 1, 2, 3, 4, 5, 6, 69, 70, 71, 139, 140, 141, 210]
-    nrand = 8000 if ctx.thorough else 350
+    nrand = 8000 if ctx.thorough else 600
     for j in range(nrand):
         nfiles = rng.choice([1, 1, 1, 2, 3])
+        how = _rand_how(rng, nfiles)
+        regex = rng.random() < 0.35
+        enz = rng.choice(REGEX_ENZ) if regex else rng.choice(CLASS_ENZ)
+        rev = rng.random() < 0.4
+        conc = rng.random() < 0.6
+        prefix = rng.choice(PREFIXES)
+        prefix, enz, regex, rev, conc = _apply_omit(rng, how, prefix, enz, regex, rev, conc)
         st = []
+        tags = []
         density = rng.choice([0.0, 0.0, 0.03, 0.1, 0.2, 0.5, 1.0])
+        style = rng.choice(SEQ_STYLES)
+        earlier = []
         for _ in range(nfiles):
             recs = []
             nl = rng.choice(["\n", "\n", "\n", "\r\n", "\r"])
             for _ in range(rng.randint(1, 6)):
-                n = rng.choice(special) if rng.random() < 0.6 else rng.randint(0, 320)
-                recs.append({"name": _rand_name(rng), "desc": rng.choice(["", "", "desc", "a b  c", "OS=Homo sapiens", ">x"]),
-                             "seq": _rand_seq(rng, n, density) + rng.choice(["", "", "", "*"]),
-                             "width": rng.choice([60, 60, 70, 80, 7, 1, 1000]), "nl": nl,
+                if ctx.thorough and rng.random() < 0.01:
+                    n = rng.choice([700, 1400, 3500])
+                else:
+                    n = rng.choice(special) if rng.random() < 0.6 else rng.randint(0, 320)
+                name, ntag = _rand_name(rng, prefix, earlier)
+                seq = _rand_seq(rng, n, density, style) + rng.choice(["", "", "", "*"])
+                if ntag == "dup-name" and rng.random() < 0.5:
+                    seq = next(r["seq"] for f in st + [recs] for r in f if r["name"] == name)
+                    ntag = "dup-record"
+                if ntag:
+                    tags.append(ntag)
+                earlier.append(name)
+                recs.append({"name": name, "desc": rng.choice(["", "", "desc", "a b  c", "OS=Homo sapiens", ">x", "\tt"]),
+                             "seq": seq, "width": rng.choice([60, 60, 70, 80, 7, 1, 1000]), "nl": nl,
                              "blank": rng.random() < 0.15})
             recs[-1]["final"] = rng.random() < 0.7
             st.append(recs)
         if rng.random() < 0.08:
             st[0][0]["name"] = ""                       # ">" followed by nothing: empty name
-        regex = rng.random() < 0.35
-        enz = rng.choice(REGEX_ENZ) if regex else rng.choice(CLASS_ENZ)
-        rev = rng.random() < 0.4
-        perm = {"mode": "numpy", "seed": rng.randrange(10 ** 6)} if rng.random() < 0.6 else \
+        if nfiles > 1 and rng.random() < 0.12:
+            st[-1] = [dict(r) for r in st[0]]            # the same file given twice
+            how["paths"][-1] = how["paths"][0]
+        reflags = "i" if (style in ("lower", "mixed") and rng.random() < 0.4) else ""
+        u = rng.random()
+        perm = {"mode": "numpy", "seed": rng.randrange(2 ** 32), "burn": rng.choice([0, 0, 1, 17, 1000])} if u < 0.6 else \
             {"mode": "script", "seed": rng.randrange(10 ** 6), "ident": rng.choice([0, 0, 1, 3])}
-        tags = ["structured", "regex-enzyme" if regex else "class-enzyme", "reverse" if rev else "shuffle",
-                f"files={nfiles}", perm["mode"]]
+        tags = ["structured", "regex-enzyme" if (regex or reflags) else "class-enzyme", "reverse" if rev else "shuffle",
+                f"files={nfiles}", perm["mode"], "seq-style=" + style] + sorted(set(tags))
+        if reflags:
+            tags.append("compiled-with-IGNORECASE")
         lens = {len(r["seq"]) for f in st for r in f}
         tags += [f"len={x}" for x in sorted(lens & {0, 69, 70, 71, 140})]
+        if max(lens) >= 700:
+            tags.append("len>=700")
         if density == 0.0:
             tags.append("no-site")
-        conc = rng.random() < 0.6
         tags.append("concatenate" if conc else "decoys-only")
-        cases.append(_mk(st, rng.choice(PREFIXES), enz, rev, conc, perm, tags, compiled=rng.random() < 0.3,
-                         single=rng.random() < 0.5))
+        cases.append(_mk(st, prefix, enz, rev, conc, perm, tags, compiled=rng.random() < 0.3, how=how, reflags=reflags))
     # (3) malformed stream -----------------------------------------------------------------------
     rng = ctx.sub("malformed")
     toks = [">", ">", "\n", "\n", "\n", "\r", "\r\n", " ", " ", "\t", "K", "A", "AK", "name", "p1 d", "-", "*",
             "\x0b", "\x0c", "\x1c", "\x1e", "ACDEFGHIKL" * 8, "GGGGKGGGG", "\n>", "\n>", "A-C-D" * 5, ">>", ";c"]
     if UTF8:
-        toks += ["\x85", "\u2028", "\u2029", "\xe9"]
+        toks += ["\x85", "\u2028", "\u2029", "\xe9", "\ufeff"]
     nmal = 10000 if ctx.thorough else 500
     for j in range(nmal):
         files = []
@@ -581,6 +894,9 @@ def gen(ctx):
              "enzyme": rng.choice(CLASS_ENZ), "compiled": False, "reverse": rng.random() < 0.5,
              "concatenate": rng.random() < 0.7, "perm": {"mode": "script", "seed": j}, "single": rng.random() < 0.5,
              "tags": ["malformed"]}
+        if rng.random() < 0.5:
+            c["how"] = _rand_how(rng, len(files))
+            c["tags"] += _how_tags(c["how"])
         cases.append(c)
         cases.append({"fn": "parse", "files": files, "tags": ["malformed", "parser-only"]})
     # (3b) sequences with blanks (outside the hypotheses of the round-trip theorem): trailing spaces on sequence
@@ -595,12 +911,12 @@ def gen(ctx):
             style = rng.choice(["trail", "blocks", "tab"])
             if style == "blocks":
                 seq = " ".join(seq[i:i + 10] for i in range(0, len(seq), 10))
-                recs.append({"name": _rand_name(rng), "seq": seq, "width": 66})
+                recs.append({"name": _rand_base_name(rng), "seq": seq, "width": 66})
             else:
                 w = rng.choice([30, 60])
                 pad = " " if style == "trail" else "\t"
                 seq = "".join(seq[i:i + w] + pad for i in range(0, len(seq), w))
-                recs.append({"name": _rand_name(rng), "seq": seq, "width": w + 1})
+                recs.append({"name": _rand_base_name(rng), "seq": seq, "width": w + 1})
         cases.append(_mk([recs], "decoy_", "[KR]", rng.random() < 0.5, True, {"mode": "script", "seed": j},
                          ["blank-in-sequence"]))
     # (4) textwrap vs the model's 70-column chunking ---------------------------------------------
